@@ -196,12 +196,20 @@ impl LookupRequest<SortAttributes, Universal2DBox> for SortLookup {
     ) -> bool {
         match self {
             SortLookup::IdleLookup(scene_id) => {
+                // idle = alive (not expired, whether or not already collected) and not updated
+                // in the current epoch of its scene
                 *scene_id == attributes.scene_id
                     && attributes.last_updated_epoch
                         != attributes
                             .opts
                             .current_epoch_with_scene(attributes.scene_id)
                             .unwrap()
+                    && !matches!(
+                        attributes
+                            .opts
+                            .baked(attributes.scene_id, attributes.last_updated_epoch),
+                        Ok(TrackStatus::Wasted)
+                    )
             }
         }
     }
